@@ -155,7 +155,10 @@ def run(prog, chk):
     # ---- R07.4 subscripts ------------------------------------------------------------------------
     nsub = 0
     from ..kcanon import Canon
-    for f in (ev, ex):
+    for f in [x for x in R.ev_methods() if x.body]:
+        if not any(n['k'] == 'index' and SX.is_node(SX.strip(n.get('base'))) and SX.strip(n['base']).get('k') == 'member' and SX.strip(n['base'])['name'].endswith('Array')
+                   for n in SX.walk(f.body, into_lambdas=False)):
+            continue
         g = prog.cfg(f)
         canon = Canon(prog, f)
         for n in SX.walk(f.body, into_lambdas=False):
@@ -210,6 +213,8 @@ def run(prog, chk):
                    key='subscript:%s:%s[%s]' % (f.short, base['name'], itxt))
     chk.count('computed subscripts of value arrays', nsub, 12)
     # / by zero test (floating division in the `/` branch)
+    ev_top = ev
+    ev = _handler(prog, ev_top, 'BinaryExpression')[0]       # eval itself, or the helper the binary handler forwards to
     g = prog.cfg(ev)
     divs = [n for n in SX.walk(ev.body, into_lambdas=False) if n['k'] == 'bin' and n['op'] == '/' and n.get('t') == 'double' and SX.strip(n['r']).get('k') == 'ref']
     nd = 0
@@ -229,12 +234,38 @@ def run(prog, chk):
         txt = SX.show(node.e.get('e') if node.kind == 'return' else node.e)
         chk.ob('R07.5', ev, n.get('ln', ev.ln), 'Float' in txt, '`/` returns a Float-tagged value: %s' % txt[:60], key='div-float')
     chk.count('language-level divisions', nd, 1)
+    ev = ev_top
 
     # ---- R07.6 numeric routing of the binary-operator cascade ----------------------------------------
     _tag_table(prog, chk, ev)
     _cast_table(prog, chk, ev)
     _unary_table(prog, chk, ev)
     _routing(prog, chk, ev)
+
+
+
+def _handler(prog, ev, cls):
+    """where the evaluator handles AST class `cls`: the then-block of `if (auto v = dynamic_cast<cls*>(e))` in eval, or — when that
+    block only forwards to a helper (`return evalBinary(v);`) — the helper's body.  → (function, block, id of the node variable)"""
+    ifs = [s_ for s_ in SX.walk(ev.body, into_lambdas=False) if s_['k'] == 'if' and s_.get('cv') and cls in (s_['cv'].get('type') or '')]
+    if len(ifs) != 1:
+        raise AnalysisBroken('%s handler not found in eval' % cls)
+    br = ifs[0]
+    f, block, vid = ev, br['t'], br['cv']['id']
+    for _ in range(3):
+        st = block['body'] if SX.is_node(block) and block.get('k') == 'block' else [block]
+        if len(st) != 1 or st[0]['k'] != 'return' or not SX.is_node(st[0].get('e')):
+            break
+        c = SX.strip(st[0]['e'])
+        if not (SX.is_node(c) and c.get('k') in ('mcall', 'call')):
+            break
+        ts = [t for t in prog.resolve(c) if t.body and t.kind != 'lambda']
+        args = SX.real_args(c)
+        pos = [i for i, a in enumerate(args) if SX.is_node(SX.strip(a)) and SX.strip(a).get('id') == vid]
+        if len(ts) != 1 or len(pos) != 1 or pos[0] >= len(ts[0].params):
+            break
+        f, block, vid = ts[0], ts[0].body, ts[0].params[pos[0]]['id']
+    return f, block, vid, br
 
 
 def _peel(e):
@@ -299,6 +330,7 @@ def _node_containing(g, x):
 
 
 def _routing(prog, chk, ev):
+    ev = _handler(prog, ev, 'BinaryExpression')[0]
     """Roles by definition shape: F = bool local := (l.type == Float || r.type == Float); L likewise with Long; D = double locals
     initialised `x.type == Float ? x.floatValue : (double) n`; N = the integer locals those read."""
     g = prog.cfg(ev)
@@ -484,10 +516,8 @@ def _py(op, x, y):
 
 def _tag_table(prog, chk, ev):
     from ..kabs import Interp, Obj, Unsupported, Thrown, Ret
-    ifs = [s for s in SX.walk(ev.body, into_lambdas=False) if s['k'] == 'if' and s.get('cv') and 'BinaryExpression' in (s['cv'].get('type') or '')]
-    if len(ifs) != 1:
-        raise AnalysisBroken('binary-operator handler not found in eval')
-    br = ifs[0]
+    hf, hblock, hvid, br0 = _handler(prog, ev, 'BinaryExpression')
+    br = {'t': hblock, 'cv': {'id': hvid}, 'ln': br0.get('ln')}
     # quotient validity: inside the handler, control may depend on operand *values* only through comparisons with literals
     VALS = set(FIELD.values())
     bad = []
@@ -616,10 +646,8 @@ def _closure_guards(canon, g, node):
 def _cast_table(prog, chk, ev):
     """(target)expr for numeric targets/sources, by abstract evaluation of the cast handler (docs/casting.md, language-guide)"""
     from ..kabs import Interp, Obj, Unsupported, Thrown, Ret
-    ifs = [s_ for s_ in SX.walk(ev.body, into_lambdas=False) if s_['k'] == 'if' and s_.get('cv') and 'CastExpression' in (s_['cv'].get('type') or '')]
-    if len(ifs) != 1:
-        raise AnalysisBroken('cast handler not found in eval')
-    br = ifs[0]
+    hf, hblock, hvid, br0 = _handler(prog, ev, 'CastExpression')
+    br = {'t': hblock, 'cv': {'id': hvid}, 'ln': br0.get('ln')}
     SRC = {'Int': [3, 0, -4], 'Long': [5000000000, 0], 'Float': [2.7, -2.7, 0.0, 0.4], 'Bit': [1, 0]}
     mism, n = [], 0
     for tgt in ('Int', 'Long', 'Float', 'Bit'):
@@ -662,10 +690,8 @@ def _unary_table(prog, chk, ev):
     from ..kabs import Interp, Obj, Unsupported, Thrown, Ret
 
     def handler(cls):
-        ifs = [s_ for s_ in SX.walk(ev.body, into_lambdas=False) if s_['k'] == 'if' and s_.get('cv') and cls in (s_['cv'].get('type') or '')]
-        if len(ifs) != 1:
-            raise AnalysisBroken('%s handler not found in eval' % cls)
-        return ifs[0]
+        hf, hblock, hvid, br0 = _handler(prog, ev, cls)
+        return {'t': hblock, 'cv': {'id': hvid}, 'ln': br0.get('ln')}
 
     def val(tag, x):
         o = Interp(prog, {}).default_struct(prog.facts.records['bloch::runtime::Value'], {})
